@@ -26,9 +26,12 @@ def r_C26eval(root):
     la = {".name": "a", ".pattern": "*.c26[ab]"}; lb = {".name": "b", ".pattern": "*.other"}
     reg = {"a": la, "b": lb}
     p0 = fns["languages_for_file"].args.args[0].arg
-    for q, want in (("x.c26a", ["a"]), ("*.c26[ab]", ["a"]), ("y.other", ["b"]), ("*.other", ["b"]), ("z.none", [])):
+    lc = {".name": "c", ".pattern": "*/flows/*.txt"}; reg["c"] = lc          # a pattern with a directory part
+    import os as _os
+    os_ = {".path": {".basename": pyeval.PyFn(_os.path.basename), ".dirname": pyeval.PyFn(_os.path.dirname), ".splitext": pyeval.PyFn(_os.path.splitext), ".join": pyeval.PyFn(_os.path.join), ".normpath": pyeval.PyFn(_os.path.normpath)}, ".sep": "/"}
+    for q, want in (("x.c26a", ["a"]), ("*.c26[ab]", ["a"]), ("y.other", ["b"]), ("*.other", ["b"]), ("z.none", []), ("proj/flows/main.txt", ["c"]), ("dir/x.c26b", ["a"]), ("main.txt", [])):
         inst += 1
-        k, v, _e = run("languages_for_file", {p0: q, "language_descriptions": pyeval.PyFn(lambda: reg), "fnmatch.fnmatch": pyeval.PyFn(fnmatch.fnmatch), "fnmatch": {".fnmatch": pyeval.PyFn(fnmatch.fnmatch)}, "TYPE_CHECKING": False})
+        k, v, _e = run("languages_for_file", {p0: q, "os": os_, "language_descriptions": pyeval.PyFn(lambda: reg), "fnmatch.fnmatch": pyeval.PyFn(fnmatch.fnmatch), "fnmatch": {".fnmatch": pyeval.PyFn(fnmatch.fnmatch)}, "TYPE_CHECKING": False})
         got = sorted(x[".name"] for x in v) if k == "ret" and isinstance(v, list) else "%s %s" % (k, v)
         ok = got == want
         ob("C26", "C26.g", RG, "languages_for_file", "%r -> %s" % (q, got), ok)
